@@ -1,7 +1,965 @@
 /-
-  Property C03 — theorems about QEModel.C03 (stub; to be filled in).
+  Property C03 — communication / recurrent / cyclic classes and period:
+  theorems about the definitions of QEModel.C03 (the ones `qedriver_c03` executes).
+
+  Vocabulary (QEProofs/Lemmas/C03*.lean): `g.E u v` — `v` is a stored column of row `u`;
+  `Walk g u w len` — a directed walk with `len` edges; `WalkV g u w vs` — the same with the list
+  of nodes it leaves; `WalkIn g C …` — a walk inside `C`; `Reach g s v` — reflexive-transitive
+  closure of `g.E`; `g.wf` — `n` rows and all column indices `< n` (what the driver checks
+  before it answers); `IsPartition g Cs` — partition of `{0..n-1}` by mutual reachability.
+
+  Index (statement of properties.jsonl → theorem):
+  * classes = strongly connected components: `reach_sound_complete`, `reach_saturates`,
+    `sccClasses_total`, `scc_is_partition_by_mutual_reach`, `same_class_iff`,
+    `sccClasses_order_independent`
+  * recurrent = no edge leaves: `sink_iff_closed`, `sink_classes_spec`
+  * is_irreducible / counts / labelled variants: `isSC_iff`, `isSC_classes_eq_range`,
+    `counts_consistent`, `showClasses_labelled`
+  * period = gcd of cycle lengths: `level_loop_correct`, `period_dvd_closed_walk`, `period_is_gcd`,
+    `bfs_complete`, `periodDG_never_stuck`, `periodDG_is_gcd`, `periodDG_is_gcd_of_cycles`,
+    `periodBFS_eq_all_edges`, `period_order_independent`, `selfLoop_period_one`, `periodBFS_pos`,
+    `closed_walks_upto_n_suffice` (justifies the harness oracle)
+  * reducible chain = lcm over recurrent classes: `periodRec_spec`, `class_period_is_gcd`,
+    `closed_class_walks`, `period_reducible_spec`, `periodMC_reducible`, `periodMC_irreducible`
+  * cyclic classes: `level_step_mod`, `cyclic_classes_spec`, `cyclic_classes_spec'`,
+    `cyclic_classes_nonempty`, `cyclic_classes_unique`, `cyclic_classes_aperiodic`
+  * sub-graph: `subgraph_edge_iff`; stored zeros: `elimZeros_spec`
 -/
 import QEModel.C03
+import QEProofs.Lemmas.C03Period
+import QEProofs.Lemmas.C03Reach
+import QEProofs.Lemmas.C03Scc
+import QEProofs.Lemmas.C03Sat
+import QEProofs.Lemmas.C03Bfs
+import QEProofs.Lemmas.C03Sub
+import QEProofs.Lemmas.C03Cycle
+import Mathlib.Data.List.Perm.Subperm
 namespace QE.C03
+
+/-! ## reachability (`reachFrom`: frontier saturation with explicit saturation test) -/
+
+/-- **T1 (reach, sound and complete).** Whenever the saturation test succeeds, the
+    computed list is exactly the set of nodes reachable from `s`
+    (`Reach g s v := Relation.ReflTransGen g.E s v`). -/
+theorem reach_sound_complete (g : G) (hwf : g.wf = true) (s : Nat) (hs : s < g.n) (T : List Nat)
+    (h : reachFrom g s = some T) (v : Nat) : v ∈ T ↔ Reach g s v :=
+  reachFrom_spec g hwf s hs T h v
+
+example : reachFrom ⟨4, [[1], [0, 2], [3], []]⟩ 1 = some [0, 1, 2, 3] ∧
+    reachFrom ⟨4, [[1], [0, 2], [3], []]⟩ 2 = some [2, 3] := by decide
+
+/-- **T2 (saturation is always reached).** `n` rounds suffice (each unsaturated round adds a
+    node, and the lists are sub-lists of `range n`): the model never answers `none`/`stuck`
+    for reachability, for any graph and start node. -/
+theorem reach_saturates (g : G) (s : Nat) : (reachFrom g s).isSome = true :=
+  reachFrom_isSome g s
+
+/-- hence the class computation always answers -/
+theorem sccClasses_total (g : G) : sccClasses g = some (sccList (reachTable g) g.n) := by
+  unfold sccClasses; rw [reachOK_true g]; rfl
+
+/-! ## communication classes = strongly connected components -/
+
+/-- **T1 (classes are the partition by mutual reachability).** When the model answers
+    `some Cs`: every listed class is `{v < n | m ↔ v}` for one of its members `m`
+    (`char`), every node `< n` lies in a listed class (`cover`), two listed classes
+    sharing a node are equal (`disj`), and no class is listed twice (`nodup`). -/
+theorem scc_is_partition_by_mutual_reach (g : G) (hwf : g.wf = true) (Cs : List (List Nat))
+    (h : sccClasses g = some Cs) : IsPartition g Cs :=
+  sccClasses_partition g hwf Cs h
+
+/-- two nodes are in the same listed class iff each reaches the other -/
+theorem same_class_iff (g : G) (hwf : g.wf = true) (Cs : List (List Nat))
+    (h : sccClasses g = some Cs) (u v : Nat) (hu : u < g.n) (hv : v < g.n) :
+    (∃ C, C ∈ Cs ∧ u ∈ C ∧ v ∈ C) ↔ (Reach g u v ∧ Reach g v u) := by
+  have hp := sccClasses_partition g hwf Cs h
+  constructor
+  · rintro ⟨C, hC, huC, hvC⟩
+    obtain ⟨m, _, _, hch⟩ := hp.char C hC
+    have h1 := (hch u).1 huC
+    have h2 := (hch v).1 hvC
+    exact ⟨h1.2.2.trans h2.2.1, h2.2.2.trans h1.2.1⟩
+  · rintro ⟨h1, h2⟩
+    obtain ⟨C, hC, huC⟩ := hp.cover u hu
+    obtain ⟨m, _, _, hch⟩ := hp.char C hC
+    have hm := (hch u).1 huC
+    exact ⟨C, hC, huC, (hch v).2 ⟨hv, hm.2.1.trans h1, h2.trans hm.2.2⟩⟩
+
+/-- **T1 (`is_irreducible` / `is_strongly_connected`).** The class count is 1 exactly when
+    every node reaches every node. -/
+theorem isSC_iff (g : G) (hwf : g.wf = true) (hn : 0 < g.n) (Cs : List (List Nat))
+    (h : sccClasses g = some Cs) :
+    isSC Cs = true ↔ ∀ u v, u < g.n → v < g.n → Reach g u v := by
+  have hp := sccClasses_partition g hwf Cs h
+  unfold isSC
+  rw [beq_iff_eq]
+  constructor
+  · intro hlen u v hu hv
+    obtain ⟨C, hC, huC⟩ := hp.cover u hu
+    obtain ⟨C', hC', hvC'⟩ := hp.cover v hv
+    have : C = C' := by
+      match Cs, hlen with
+      | [D], _ =>
+        rw [List.mem_singleton] at hC hC'
+        rw [hC, hC']
+    subst this
+    exact ((same_class_iff g hwf Cs h u v hu hv).1 ⟨C, hC, huC, hvC'⟩).1
+  · intro hall
+    match Cs, hp with
+    | [], hp =>
+      obtain ⟨C, hC, _⟩ := hp.cover 0 hn
+      simp at hC
+    | [_], _ => rfl
+    | C :: C' :: rest, hp =>
+      exfalso
+      obtain ⟨m, hm, hmC, _⟩ := hp.char C (by simp)
+      obtain ⟨m', hm', hmC', hch'⟩ := hp.char C' (by simp)
+      have hmC'' : m ∈ C' := (hch' m).2 ⟨hm, hall m' m hm' hm, hall m m' hm hm'⟩
+      have heq := hp.disj C (by simp) C' (by simp) m hmC hmC''
+      have hnd := hp.nodup
+      rw [heq] at hnd
+      simp at hnd
+
+example : sccClasses ⟨4, [[1], [0, 2], [3], []]⟩ = some [[0, 1], [2], [3]] := by decide
+
+/-- **T1 (the `[np.arange(n)]` shortcut is consistent).** When there is exactly one class, the
+    class list is `[[0, …, n-1]]` — what the `*_indices` properties return directly in the
+    strongly connected case. -/
+theorem isSC_classes_eq_range (g : G) (hwf : g.wf = true) (Cs : List (List Nat))
+    (h : sccClasses g = some Cs) (hsc : isSC Cs = true) : Cs = [List.range g.n] := by
+  have hp := sccClasses_partition g hwf Cs h
+  obtain ⟨_, hCs⟩ := sccClasses_some g Cs h
+  unfold isSC at hsc
+  rw [beq_iff_eq] at hsc
+  match Cs, hsc, hp, hCs with
+  | [C], _, hp, hCs =>
+    have hC : C ∈ sccList (reachTable g) g.n := by rw [← hCs]; simp
+    obtain ⟨m, _, _, hCm⟩ := (mem_sccList _ _ _).1 hC
+    have hall : ∀ v, v ∈ List.range g.n → comm (reachTable g) m v = true := by
+      intro v hv
+      obtain ⟨C', hC', hvC'⟩ := hp.cover v (List.mem_range.1 hv)
+      rw [List.mem_singleton] at hC'
+      subst hC'
+      rw [hCm] at hvC'
+      exact ((mem_sccOf _ _ _ _).1 hvC').2
+    have : C = List.range g.n := by
+      rw [hCm]; unfold sccOf
+      exact List.filter_eq_self.2 hall
+    rw [this]
+
+/-! ## recurrent classes = sink components (`_condensation_lil`, `_find_sink_scc`) -/
+
+/-- **T1 (sink label ⇔ no edge leaves the component)**, on the labels (`scc_proj`):
+    the row of label `k` in the condensation built edge by edge is empty exactly when
+    every stored edge starting in component `k` ends in component `k`. -/
+theorem sink_iff_closed (g : G) (Cs : List (List Nat)) (k : Nat) (hk : k < Cs.length) :
+    k ∈ sinkLabels g Cs ↔
+      ∀ u v, u < g.n → g.E u v → classIdx Cs u = k → classIdx Cs v = k := by
+  rw [mem_sinkLabels]
+  exact ⟨fun h => h.2, fun h => ⟨hk, h⟩⟩
+
+/-- **T1 (recurrent classes).** The reported sink classes are exactly the listed classes
+    that no stored edge leaves. -/
+theorem sink_classes_spec (g : G) (hwf : g.wf = true) (Cs : List (List Nat))
+    (h : sccClasses g = some Cs) (C : List Nat) :
+    C ∈ sinkClasses g Cs ↔ (C ∈ Cs ∧ ∀ u, u ∈ C → ∀ v, g.E u v → v ∈ C) := by
+  have hp := sccClasses_partition g hwf Cs h
+  unfold sinkClasses
+  rw [List.mem_map]
+  constructor
+  · rintro ⟨k, hk, rfl⟩
+    obtain ⟨hklen, hcl⟩ := (mem_sinkLabels g Cs k).1 hk
+    have hget : Cs.getD k [] = Cs[k] := by
+      rw [List.getD_eq_getElem?_getD, List.getElem?_eq_getElem hklen]; rfl
+    rw [hget]
+    refine ⟨List.getElem_mem hklen, ?_⟩
+    intro u hu v he
+    have hun := (E_lt g hwf he).1
+    have hvn := (E_lt g hwf he).2
+    have hcu := classIdx_eq_of_mem g Cs hp u k hklen hu
+    have hcv := hcl u v hun he hcu
+    have hlt := classIdx_lt g Cs hp v hvn
+    have := mem_of_classIdx Cs v hlt
+    simpa [hcv] using this
+  · rintro ⟨hC, hcl⟩
+    obtain ⟨k, hklen, rfl⟩ := List.getElem_of_mem hC
+    refine ⟨k, (mem_sinkLabels g Cs k).2 ⟨hklen, ?_⟩, ?_⟩
+    · intro u v hun he hcu
+      have hlt := classIdx_lt g Cs hp u hun
+      have hu : u ∈ Cs[k] := by
+        have := mem_of_classIdx Cs u hlt
+        simpa [hcu] using this
+      exact classIdx_eq_of_mem g Cs hp v k hklen (hcl u hu v he)
+    · rw [List.getD_eq_getElem?_getD, List.getElem?_eq_getElem hklen]; rfl
+
+/-- **T1 (counts).** `num_*` are the lengths of the reported lists. -/
+theorem counts_consistent (g : G) (Cs : List (List Nat)) :
+    (sinkClasses g Cs).length = (sinkLabels g Cs).length := by
+  unfold sinkClasses; rw [List.length_map]
+
+example : sinkClasses ⟨4, [[1], [0, 2], [3], []]⟩ [[0, 1], [2], [3]] = [[3]] := by decide
+example : sinkClasses ⟨5, [[1], [0], [0, 3], [4], [3]]⟩ [[0, 1], [2], [3, 4]] = [[0, 1], [3, 4]] := by decide
+
+/-! ## period: Jarvis–Shier (`_compute_period`) -/
+
+/-- **T1 (the level loop).** `level = zeros(n); for i in 1..: level[node_order[i]] =
+    level[predecessors[node_order[i]]] + 1` (`levelArr`/`levelOf`) gives every node of the BFS
+    queue the level noted when it was discovered (predecessor's level + 1, root 0): the loop
+    never reads a level that has not been written yet. -/
+theorem level_loop_correct (g : G) (hwf : g.wf = true) (hn : 0 < g.n)
+    (e : Nat × Option Nat × Nat) (he : e ∈ bfs g) : levelOf g.n (bfs g) e.1 = (e.2.2 : Int) :=
+  levelArr_spec g (bfs g) (bfs_inv g hwf hn) e he
+
+example : bfs ⟨4, [[1, 2], [3], [3], [0]]⟩ = [(0, none, 0), (1, some 0, 1), (2, some 0, 1), (3, some 1, 2)] ∧
+    levelArr 4 (bfs ⟨4, [[1, 2], [3], [3], [0]]⟩) = [0, 1, 1, 2] := by decide
+
+/-- level of a visited node is the length of a walk from the root to it -/
+theorem level_is_walk (g : G) (hwf : g.wf = true) (hn : 0 < g.n) (v : Nat)
+    (hv : visited (bfs g) v = true) :
+    ∃ l : Nat, levelOf g.n (bfs g) v = (l : Int) ∧ Walk g 0 v l := by
+  have hinv := bfs_inv g hwf hn
+  unfold visited at hv
+  cases hl : visLookup (bfs g) v with
+  | none => rw [hl] at hv; simp at hv
+  | some e =>
+    obtain ⟨hmem, he⟩ := mem_of_visLookup _ v e hl
+    obtain ⟨a, p, l⟩ := e
+    simp only at he; subst he
+    exact ⟨l, levelArr_spec g (bfs g) hinv _ hmem, hinv.walk a p l hmem⟩
+
+/-- **T1 (period divides every closed walk).** The number computed by the BFS/gcd loop
+    divides the length of every closed walk of the graph — for every well-formed graph,
+    strongly connected or not (the level table is only used as a potential; edges into
+    nodes the BFS did not reach are treated as non-tree edges with level 0, which is why
+    no guard on `allVisited` is needed here). -/
+theorem period_dvd_closed_walk (g : G) (hwf : g.wf = true) (hn : 0 < g.n)
+    (u L : Nat) (hw : Walk g u u L) : periodBFS g (bfs g) ∣ L := by
+  have hinv := bfs_inv g hwf hn
+  have h := walk_telescope g (levelOf g.n (bfs g)) ((periodBFS g (bfs g) : Nat) : Int)
+    (fun a b hab => periodBFS_dvd_edge g (bfs g) hinv a b (E_lt g hwf hab).1 hab) hw
+  simp only [sub_self, sub_zero] at h
+  exact Int.natCast_dvd_natCast.1 h
+
+/-- **T2 (period is the gcd).** If every node can walk back to node 0 and the BFS
+    reached every node (the model's guard `allVisited`, under which alone `periodDG`
+    answers), every common divisor of the closed-walk lengths divides the computed
+    number.  With T1: the computed number is the gcd of the closed-walk lengths. -/
+theorem period_is_gcd (g : G) (hwf : g.wf = true) (hn : 0 < g.n)
+    (hall : allVisited g (bfs g) = true)
+    (hback : ∀ v, v < g.n → ∃ r, Walk g v 0 r)
+    (c : Nat) (hc : ∀ u L, Walk g u u L → c ∣ L) : c ∣ periodBFS g (bfs g) := by
+  unfold periodBFS
+  apply dvd_foldl_gcdStep _ _ _ _ (Nat.dvd_zero c)
+  intro e he
+  obtain ⟨u, v⟩ := e
+  unfold nonTree at he
+  have hmem := (List.mem_filter.1 he).1
+  obtain ⟨hu, huv⟩ := (mem_edges g u v).1 hmem
+  have hv := (E_lt g hwf huv).2
+  unfold allVisited at hall
+  rw [List.all_eq_true] at hall
+  obtain ⟨lu, hlu, wu⟩ := level_is_walk g hwf hn u (hall u (List.mem_range.2 hu))
+  obtain ⟨lv, hlv, wv⟩ := level_is_walk g hwf hn v (hall v (List.mem_range.2 hv))
+  obtain ⟨r, wr⟩ := hback v hv
+  have h1 : c ∣ lu + 1 + r := hc 0 _ ((wu.snoc huv).append wr)
+  have h2 : c ∣ lv + r := hc 0 _ (wv.append wr)
+  rw [← Int.natCast_dvd]
+  unfold edgeVal
+  simp only [hlu, hlv]
+  have h1' : (c : Int) ∣ ((lu + 1 + r : Nat) : Int) := Int.natCast_dvd_natCast.2 h1
+  have h2' : (c : Int) ∣ ((lv + r : Nat) : Int) := Int.natCast_dvd_natCast.2 h2
+  have := Int.dvd_sub h1' h2'
+  have heq : ((lu + 1 + r : Nat) : Int) - ((lv + r : Nat) : Int) = (lu : Int) - (lv : Int) + 1 := by
+    push_cast; ring
+  rw [heq] at this
+  exact this
+
+/-- non-vacuity: the directed 3-cycle is well-formed, completely visited, and its period is 3 -/
+example : (⟨3, [[1], [2], [0]]⟩ : G).wf = true ∧ allVisited ⟨3, [[1], [2], [0]]⟩ (bfs ⟨3, [[1], [2], [0]]⟩) = true
+    ∧ periodBFS ⟨3, [[1], [2], [0]]⟩ (bfs ⟨3, [[1], [2], [0]]⟩) = 3 := by decide
+
+/-- **T1 (what `DiGraph.period` answers divides every closed walk)**, all branches of
+    `_compute_period` (single node, self-loop shortcut, BFS). -/
+theorem periodDG_dvd_closed_walk (g : G) (hwf : g.wf = true) (hn : 0 < g.n) (Cs : List (List Nat))
+    (d : Nat) (proj : Option Vis) (h : periodDG g Cs = .ok (d, proj))
+    (u L : Nat) (hw : Walk g u u L) : d ∣ L := by
+  unfold periodDG at h
+  split at h
+  · cases h; exact Nat.one_dvd _
+  split at h
+  · cases h
+  split at h
+  · cases h; exact Nat.one_dvd _
+  simp only at h
+  split at h
+  · cases h
+  split at h
+  · cases h; exact Nat.one_dvd _
+  · cases h; exact period_dvd_closed_walk g hwf hn u L hw
+
+/-- the self-loop shortcut is exact: a graph with a loop has a closed walk of length 1,
+    so no number other than 1 divides all closed-walk lengths -/
+theorem selfLoop_period_one (g : G) (h : hasSelfLoop g = true) (c : Nat)
+    (hc : ∀ u L, Walk g u u L → c ∣ L) : c = 1 := by
+  unfold hasSelfLoop at h
+  rw [List.any_eq_true] at h
+  obtain ⟨u, _, hu⟩ := h
+  have : g.E u u := by unfold G.E; simpa using hu
+  exact Nat.dvd_one.1 (hc u 1 (Walk.cons this (Walk.nil u)))
+
+/-! ## cyclic classes (`cyclic_components_indices`) -/
+
+/-- **T1 (every edge goes from class k to class k+1 mod d)**, stated on the level
+    table: `level[v] ≡ level[u] + 1 (mod period)` on every stored edge. -/
+theorem level_step_mod (g : G) (hwf : g.wf = true) (hn : 0 < g.n) (u v : Nat) (he : g.E u v) :
+    levelOf g.n (bfs g) v % (periodBFS g (bfs g) : Int)
+      = (levelOf g.n (bfs g) u + 1) % (periodBFS g (bfs g) : Int) := by
+  have hinv := bfs_inv g hwf hn
+  have h := periodBFS_dvd_edge g (bfs g) hinv u v (E_lt g hwf he).1 he
+  unfold edgeVal at h
+  simp only at h
+  symm
+  apply Int.emod_eq_emod_iff_emod_sub_eq_zero.2
+  apply Int.emod_eq_zero_of_dvd
+  have heq : levelOf g.n (bfs g) u + 1 - levelOf g.n (bfs g) v = levelOf g.n (bfs g) u - levelOf g.n (bfs g) v + 1 := by ring
+  rw [heq]; exact h
+
+theorem cyclicClasses_length (g : G) (d : Nat) (vis : Vis) (hd : d ≠ 1) :
+    (cyclicClasses g d (some vis)).length = d := by
+  unfold cyclicClasses
+  have : (d == 1) = false := by simpa using hd
+  simp [this]
+
+/-- membership in the `k`-th cyclic class -/
+theorem mem_cyclicClasses (g : G) (d : Nat) (vis : Vis) (hd : d ≠ 1) (k : Nat) (hk : k < d) (v : Nat) :
+    v ∈ (cyclicClasses g d (some vis))[k]'(by rw [cyclicClasses_length g d vis hd]; exact hk)
+      ↔ v < g.n ∧ levelOf g.n vis v % (d : Int) = (k : Int) := by
+  unfold cyclicClasses
+  have : (d == 1) = false := by simpa using hd
+  simp [this]
+
+/-- **T1 (cyclic classes).** When `DiGraph.period` answers `d` with a level table
+    (the BFS branch, `d ≠ 1`): there are exactly `d` classes, every node `< n` lies in
+    exactly one of them (class `level mod d`), and every stored edge leads from class `k`
+    to class `(k+1) mod d`. -/
+theorem cyclic_classes_spec (g : G) (hwf : g.wf = true) (hn : 0 < g.n) (Cs : List (List Nat))
+    (d : Nat) (vis : Vis) (h : periodDG g Cs = .ok (d, some vis)) (hd0 : 0 < d) :
+    ∃ hlen : (cyclicClasses g d (some vis)).length = d,
+      (∀ v, v < g.n → ∃ k, ∃ hk : k < d, v ∈ (cyclicClasses g d (some vis))[k] ∧
+          ∀ k', ∀ hk' : k' < d, v ∈ (cyclicClasses g d (some vis))[k'] → k' = k) ∧
+      (∀ u v k, ∀ hk : k < d, g.E u v → u ∈ (cyclicClasses g d (some vis))[k] →
+          v ∈ (cyclicClasses g d (some vis))[(k + 1) % d]'(by rw [hlen]; exact Nat.mod_lt _ hd0)) := by
+  -- identify the branch
+  have hbr : d ≠ 1 ∧ vis = bfs g ∧ d = periodBFS g (bfs g) := by
+    unfold periodDG at h
+    split at h
+    · cases h
+    split at h
+    · cases h
+    split at h
+    · cases h
+    simp only at h
+    split at h
+    · cases h
+    split at h
+    · cases h
+    · rename_i hne
+      cases h
+      exact ⟨by simpa using hne, rfl, rfl⟩
+  obtain ⟨hd1, rfl, hdeq⟩ := hbr
+  have hlen := cyclicClasses_length g d (bfs g) hd1
+  have hdpos : (0 : Int) < (d : Int) := by exact_mod_cast hd0
+  refine ⟨hlen, ?_, ?_⟩
+  · intro v hv
+    have hnn : 0 ≤ levelOf g.n (bfs g) v % (d : Int) := Int.emod_nonneg _ (by omega)
+    have hlt : levelOf g.n (bfs g) v % (d : Int) < (d : Int) := Int.emod_lt_of_pos _ hdpos
+    refine ⟨(levelOf g.n (bfs g) v % (d : Int)).toNat, by omega, ?_, ?_⟩
+    · rw [mem_cyclicClasses g d (bfs g) hd1 _ (by omega)]
+      exact ⟨hv, by omega⟩
+    · intro k' hk' hm
+      rw [mem_cyclicClasses g d (bfs g) hd1 _ hk'] at hm
+      omega
+  · intro u v k hk he hu
+    rw [mem_cyclicClasses g d (bfs g) hd1 _ hk] at hu
+    rw [mem_cyclicClasses g d (bfs g) hd1 _ (Nat.mod_lt _ hd0)]
+    refine ⟨(E_lt g hwf he).2, ?_⟩
+    have hstep := level_step_mod g hwf hn u v he
+    rw [← hdeq] at hstep
+    rw [hstep, Int.add_emod, hu.2]
+    have : ((k : Int) + 1 % (d : Int)) % (d : Int) = ((k : Int) + 1) % (d : Int) := by
+      rw [Int.add_emod, Int.emod_emod_of_dvd _ (dvd_refl _), ← Int.add_emod]
+    rw [this]
+    push_cast
+    rfl
+
+/-- non-vacuity: a 4-cycle with a chord closing a 3-cycle has period 1 (the gcd reaches 1 in the
+    loop); a bipartite strongly connected graph has period 2 and classes {0,2}, {1,3} -/
+example : periodDG ⟨4, [[1, 2], [2], [3], [0]]⟩ [[0, 1, 2, 3]] = .ok (1, none) := by decide
+example : (match periodDG ⟨4, [[1, 3], [0, 2], [1, 3], [0, 2]]⟩ [[0, 1, 2, 3]] with
+    | .ok (d, some vis) => (d, cyclicClasses ⟨4, [[1, 3], [0, 2], [1, 3], [0, 2]]⟩ d (some vis))
+    | _ => (0, [])) = (2, [[0, 2], [1, 3]]) := by decide
+
+/-! ## the BFS reaches everything; `DiGraph.period` is the gcd of the closed-walk lengths -/
+
+/-- **T2 (BFS completeness).** The queue BFS with fuel `n` visits every node reachable from
+    node 0; in a strongly connected graph the guard `allVisited` holds. -/
+theorem bfs_complete (g : G) (hwf : g.wf = true) (hn : 0 < g.n)
+    (h : ∀ v, v < g.n → Reach g 0 v) : allVisited g (bfs g) = true :=
+  bfs_allVisited g hwf hn h
+
+/-- the model's own guard never fires: `periodDG` answers a number or `NotImplementedError` -/
+theorem periodDG_never_stuck (g : G) (hwf : g.wf = true) (hn : 0 < g.n) (Cs : List (List Nat))
+    (h : sccClasses g = some Cs) : periodDG g Cs ≠ .stuck := by
+  intro hst
+  unfold periodDG at hst
+  split at hst
+  · cases hst
+  split at hst
+  · cases hst
+  rename_i hsc
+  split at hst
+  · cases hst
+  simp only at hst
+  split at hst
+  · rename_i hnot
+    have hsc' : isSC Cs = true := by simpa using hsc
+    have hall := (isSC_iff g hwf hn Cs h).1 hsc'
+    have := bfs_allVisited g hwf hn (fun v hv => hall 0 v hn hv)
+    rw [this] at hnot
+    simp at hnot
+  · split at hst <;> cases hst
+
+/-- in a strongly connected graph on at least two nodes the BFS/gcd value is positive -/
+theorem periodBFS_pos (g : G) (hwf : g.wf = true) (hn : 2 ≤ g.n)
+    (h01 : Reach g 0 1) (h10 : Reach g 1 0) : 0 < periodBFS g (bfs g) := by
+  obtain ⟨a, wa⟩ := reach_walk g h01
+  obtain ⟨b, wb⟩ := reach_walk g h10
+  have hdvd := period_dvd_closed_walk g hwf (by omega) 0 (a + b) (wa.append wb)
+  rcases Nat.eq_zero_or_pos (periodBFS g (bfs g)) with h0 | hpos
+  · rw [h0] at hdvd
+    have hab : a + b = 0 := Nat.eq_zero_of_zero_dvd hdvd
+    have ha : a = 0 := by omega
+    subst ha
+    have := walk_zero_eq g wa
+    omega
+  · exact hpos
+
+/-- **T1+T2 (`DiGraph.period` is the gcd of the closed-walk lengths).** For a graph on
+    `n ≥ 2` nodes whose classes are `Cs`: whatever number `d` the model of `_compute_period`
+    answers (self-loop shortcut, early exit at gcd 1, or full loop), `d` divides the length of
+    every closed walk, and every number dividing all closed-walk lengths divides `d`. -/
+theorem periodDG_is_gcd (g : G) (hwf : g.wf = true) (hn : 2 ≤ g.n) (Cs : List (List Nat))
+    (hCs : sccClasses g = some Cs) (d : Nat) (proj : Option Vis)
+    (h : periodDG g Cs = .ok (d, proj)) :
+    (∀ u L, Walk g u u L → d ∣ L) ∧ (∀ c, (∀ u L, Walk g u u L → c ∣ L) → c ∣ d) := by
+  refine ⟨fun u L hw => periodDG_dvd_closed_walk g hwf (by omega) Cs d proj h u L hw, ?_⟩
+  intro c hc
+  unfold periodDG at h
+  split at h
+  · rename_i h1
+    have : g.n = 1 := by simpa using h1
+    omega
+  split at h
+  · cases h
+  rename_i hsc
+  have hsc' : isSC Cs = true := by simpa using hsc
+  have hall := (isSC_iff g hwf (by omega) Cs hCs).1 hsc'
+  split at h
+  · rename_i hloop
+    cases h
+    rw [selfLoop_period_one g hloop c hc]
+  simp only at h
+  split at h
+  · cases h
+  rename_i hvis
+  have hvis' : allVisited g (bfs g) = true := by simpa using hvis
+  have hgcd := period_is_gcd g hwf (by omega) hvis'
+    (fun v hv => reach_walk g (hall v 0 hv (by omega))) c hc
+  split at h
+  · rename_i hone
+    cases h
+    have : periodBFS g (bfs g) = 1 := by simpa using hone
+    rw [this] at hgcd; exact hgcd
+  · cases h; exact hgcd
+
+/-- **T2 (`DiGraph.period` is the gcd of the cycle lengths).** `WalkV g u u vs` is a closed
+    walk leaving the nodes `vs` in turn; it is a (simple) cycle when `vs` is non-empty and has no
+    repetition.  The answered `d` divides the length of every closed walk, in particular of every
+    cycle, and every number dividing the lengths of all cycles divides `d` (closed walks
+    decompose into cycles). -/
+theorem periodDG_is_gcd_of_cycles (g : G) (hwf : g.wf = true) (hn : 2 ≤ g.n) (Cs : List (List Nat))
+    (hCs : sccClasses g = some Cs) (d : Nat) (proj : Option Vis)
+    (h : periodDG g Cs = .ok (d, proj)) :
+    (∀ u vs, WalkV g u u vs → d ∣ vs.length) ∧
+    (∀ c, (∀ u vs, WalkV g u u vs → vs ≠ [] → vs.Nodup → c ∣ vs.length) → c ∣ d) := by
+  obtain ⟨h1, h2⟩ := periodDG_is_gcd g hwf hn Cs hCs d proj h
+  refine ⟨fun u vs hw => h1 u _ hw.toWalk, ?_⟩
+  intro c hc
+  apply h2
+  intro u L hw
+  obtain ⟨vs, hvs, hl⟩ := hw.toWalkV
+  rw [← hl]
+  exact dvd_closed_of_dvd_cycles g c hc vs.length u vs rfl hvs
+
+/-- non-vacuity: 0 → 1 → 2 → 0 is a simple cycle of the 3-cycle graph -/
+example : WalkV ⟨3, [[1], [2], [0]]⟩ 0 0 [0, 1, 2] ∧ [0, 1, 2].Nodup :=
+  ⟨WalkV.cons (by unfold G.E; decide) (WalkV.cons (by unfold G.E; decide)
+    (WalkV.cons (by unfold G.E; decide) (WalkV.nil 0))), by decide⟩
+
+/-- **T1 (cyclic classes, no side condition).** Same as `cyclic_classes_spec`, the positivity of
+    the period being derived from strong connectivity. -/
+theorem cyclic_classes_spec' (g : G) (hwf : g.wf = true) (Cs : List (List Nat))
+    (hCs : sccClasses g = some Cs) (d : Nat) (vis : Vis) (h : periodDG g Cs = .ok (d, some vis)) :
+    0 < d ∧ (cyclicClasses g d (some vis)).length = d ∧
+      (∀ v, v < g.n → ∃ k, k < d ∧ v ∈ (cyclicClasses g d (some vis)).getD k [] ∧
+          ∀ k', k' < d → v ∈ (cyclicClasses g d (some vis)).getD k' [] → k' = k) ∧
+      (∀ u v k, k < d → g.E u v → u ∈ (cyclicClasses g d (some vis)).getD k [] →
+          v ∈ (cyclicClasses g d (some vis)).getD ((k + 1) % d) []) := by
+  -- identify the branch: n ≠ 1, strongly connected, d = periodBFS
+  have hbr : g.n ≠ 1 ∧ isSC Cs = true ∧ d = periodBFS g (bfs g) := by
+    unfold periodDG at h
+    split at h
+    · cases h
+    rename_i hn1
+    split at h
+    · cases h
+    rename_i hsc
+    split at h
+    · cases h
+    simp only at h
+    split at h
+    · cases h
+    split at h
+    · cases h
+    · cases h
+      exact ⟨by simpa using hn1, by simpa using hsc, rfl⟩
+  obtain ⟨hn1, hsc, hdeq⟩ := hbr
+  have hn0 : 0 < g.n := by
+    by_contra hc
+    have hz : g.n = 0 := by omega
+    have hp := sccClasses_partition g hwf Cs hCs
+    unfold isSC at hsc
+    rw [beq_iff_eq] at hsc
+    match Cs, hsc, hp with
+    | [C], _, hp =>
+      obtain ⟨m, hm, _⟩ := hp.char C (by simp)
+      omega
+  have hn2 : 2 ≤ g.n := by omega
+  have hall := (isSC_iff g hwf hn0 Cs hCs).1 hsc
+  have hd0 : 0 < d := by
+    rw [hdeq]; exact periodBFS_pos g hwf hn2 (hall 0 1 hn0 (by omega)) (hall 1 0 (by omega) hn0)
+  obtain ⟨hlen, hpart, hedge⟩ := cyclic_classes_spec g hwf hn0 Cs d vis h hd0
+  have hget : ∀ k, ∀ hk : k < d, (cyclicClasses g d (some vis)).getD k []
+      = (cyclicClasses g d (some vis))[k]'(by rw [hlen]; exact hk) := by
+    intro k hk
+    rw [List.getD_eq_getElem?_getD, List.getElem?_eq_getElem (by rw [hlen]; exact hk)]; rfl
+  refine ⟨hd0, hlen, ?_, ?_⟩
+  · intro v hv
+    obtain ⟨k, hk, hm, huniq⟩ := hpart v hv
+    refine ⟨k, hk, by rw [hget k hk]; exact hm, ?_⟩
+    intro k' hk' hm'
+    rw [hget k' hk'] at hm'
+    exact huniq k' hk' hm'
+  · intro u v k hk he hu
+    rw [hget k hk] at hu
+    rw [hget _ (Nat.mod_lt _ hd0)]
+    exact hedge u v k hk he hu
+
+/-- the only branch of `_compute_period` that keeps a level table -/
+theorem periodDG_bfs_branch (g : G) (Cs : List (List Nat)) (d : Nat) (vis : Vis)
+    (h : periodDG g Cs = .ok (d, some vis)) :
+    g.n ≠ 1 ∧ isSC Cs = true ∧ vis = bfs g ∧ d = periodBFS g (bfs g) ∧ d ≠ 1 := by
+  unfold periodDG at h
+  split at h
+  · cases h
+  rename_i hn1
+  split at h
+  · cases h
+  rename_i hsc
+  split at h
+  · cases h
+  simp only at h
+  split at h
+  · cases h
+  split at h
+  · cases h
+  · rename_i hne
+    cases h
+    exact ⟨by simpa using hn1, by simpa using hsc, rfl, rfl, by simpa using hne⟩
+
+/-- in a strongly connected graph every residue `k < period` is the level (mod period) of some
+    node: walk once around a closed walk through node 0 -/
+theorem level_residues_all (g : G) (hwf : g.wf = true) (hn : 2 ≤ g.n)
+    (h01 : Reach g 0 1) (h10 : Reach g 1 0) (k : Nat) (hk : k < periodBFS g (bfs g)) :
+    ∃ v, v < g.n ∧ levelOf g.n (bfs g) v % (periodBFS g (bfs g) : Int) = (k : Int) := by
+  have hn0 : 0 < g.n := by omega
+  obtain ⟨a, wa⟩ := reach_walk g h01
+  obtain ⟨b, wb⟩ := reach_walk g h10
+  have hW := wa.append wb
+  have ha : a ≠ 0 := by
+    intro h0; subst h0
+    have := walk_zero_eq g wa
+    omega
+  have hdvd := period_dvd_closed_walk g hwf hn0 0 (a + b) hW
+  have hle : periodBFS g (bfs g) ≤ a + b := Nat.le_of_dvd (by omega) hdvd
+  obtain ⟨x, hx⟩ := walk_prefix g hW k (by omega)
+  refine ⟨x, walk_end_lt g hwf hx hn0, ?_⟩
+  have hinv := bfs_inv g hwf hn0
+  have ht := walk_telescope g (levelOf g.n (bfs g)) ((periodBFS g (bfs g) : Nat) : Int)
+    (fun p q hpq => periodBFS_dvd_edge g (bfs g) hinv p q (E_lt g hwf hpq).1 hpq) hx
+  rw [bfs_root g hwf hn0, sub_zero] at ht
+  have h1 := (Int.emod_eq_emod_iff_emod_sub_eq_zero).2 (Int.emod_eq_zero_of_dvd ht)
+  rw [← h1]
+  exact Int.emod_eq_of_lt (by omega) (by exact_mod_cast hk)
+
+/-- **T1 (no cyclic class is empty).** Together with `cyclic_classes_spec'`: the `period` lists
+    reported by `cyclic_components_indices` form a partition of the nodes into non-empty classes. -/
+theorem cyclic_classes_nonempty (g : G) (hwf : g.wf = true) (Cs : List (List Nat))
+    (hCs : sccClasses g = some Cs) (d : Nat) (vis : Vis) (h : periodDG g Cs = .ok (d, some vis))
+    (k : Nat) (hk : k < d) : ∃ v, v ∈ (cyclicClasses g d (some vis)).getD k [] := by
+  obtain ⟨hn1, hsc, rfl, hdeq, hd1⟩ := periodDG_bfs_branch g Cs d vis h
+  obtain ⟨hd0, hlen, _, _⟩ := cyclic_classes_spec' g hwf Cs hCs d (bfs g) h
+  have hn0 : 0 < g.n := by
+    by_contra hc
+    have hz : g.n = 0 := by omega
+    have hp := sccClasses_partition g hwf Cs hCs
+    unfold isSC at hsc
+    rw [beq_iff_eq] at hsc
+    match Cs, hsc, hp with
+    | [C], _, hp =>
+      obtain ⟨m, hm, _⟩ := hp.char C (by simp)
+      omega
+  have hn2 : 2 ≤ g.n := by omega
+  have hall := (isSC_iff g hwf hn0 Cs hCs).1 hsc
+  obtain ⟨v, hv, hres⟩ := level_residues_all g hwf hn2 (hall 0 1 hn0 (by omega)) (hall 1 0 (by omega) hn0)
+    k (by rw [← hdeq]; exact hk)
+  refine ⟨v, ?_⟩
+  rw [List.getD_eq_getElem?_getD, List.getElem?_eq_getElem (by rw [hlen]; exact hk)]
+  simp only [Option.getD_some]
+  rw [mem_cyclicClasses g d (bfs g) hd1 k hk]
+  exact ⟨hv, by rw [hdeq]; exact hres⟩
+
+/-! ## reducible chains: lcm over the recurrent classes -/
+
+/-- one step of the loop of `MarkovChain.period` is the least common multiple -/
+theorem lcmStep_eq_lcm (d p : Nat) : lcmStep d p = Nat.lcm d p := rfl
+
+/-- **T1 (period of a reducible chain = lcm over the recurrent classes).** When the loop of
+    `MarkovChain.period` answers `d`, there is one period `p` per class in the list — the answer
+    of `DiGraph.period` on the class's sub-graph — and `d` is the fold of `lcm` over them. -/
+theorem periodRec_spec (g : G) (Cls : List (List Nat)) (d0 d : Nat) (h : periodRec g Cls d0 = .ok d) :
+    ∃ ps : List Nat,
+      List.Forall₂ (fun C p => ∃ Cs' proj, sccClasses (subgraph g C) = some Cs' ∧
+          periodDG (subgraph g C) Cs' = .ok (p, proj)) Cls ps ∧
+      d = ps.foldl Nat.lcm d0 := by
+  induction Cls generalizing d0 with
+  | nil =>
+    unfold periodRec at h
+    cases h
+    exact ⟨[], List.Forall₂.nil, rfl⟩
+  | cons C rest ih =>
+    unfold periodRec at h
+    simp only at h
+    split at h
+    · cases h
+    · rename_i Cs' hCs'
+      split at h
+      · rename_i p proj hp
+        obtain ⟨ps, hfa, hd⟩ := ih _ h
+        exact ⟨p :: ps, List.Forall₂.cons ⟨Cs', proj, hCs', hp⟩ hfa, by rw [hd]; rfl⟩
+      · cases h
+      · cases h
+
+/-- `MarkovChain.period` of a reducible chain runs that loop over the sink classes from 1 -/
+theorem periodMC_reducible (g : G) (Cs : List (List Nat)) (h : isSC Cs = false) :
+    periodMC g Cs = periodRec g (sinkClasses g Cs) 1 := by
+  unfold periodMC; simp [h]
+
+/-- **T1+T2 (the period of a class is the gcd of the closed walks inside it).** For a class `C`
+    with at least two nodes: the number `p` that `DiGraph.period` answers on `subgraph(C)` divides
+    the length of every closed walk of `g` that stays inside `C`, and every number dividing all
+    those lengths divides `p`. -/
+theorem class_period_is_gcd (g : G) (C : List Nat) (hC : 2 ≤ C.length) (Cs' : List (List Nat))
+    (hCs' : sccClasses (subgraph g C) = some Cs') (p : Nat) (proj : Option Vis)
+    (h : periodDG (subgraph g C) Cs' = .ok (p, proj)) :
+    (∀ u L, WalkIn g C u u L → p ∣ L) ∧ (∀ c, (∀ u L, WalkIn g C u u L → c ∣ L) → c ∣ p) := by
+  have hn : 2 ≤ (subgraph g C).n := by simpa [subgraph] using hC
+  obtain ⟨h1, h2⟩ := periodDG_is_gcd (subgraph g C) (subgraph_wf g C) hn Cs' hCs' p proj h
+  refine ⟨fun u L hw => h1 _ L (sub_walk_from g C hw), ?_⟩
+  intro c hc
+  apply h2
+  intro i L hw
+  by_cases hi : i < C.length
+  · exact hc _ L (sub_walk_to g C hw hi).2
+  · cases hw with
+    | nil => exact Nat.dvd_zero c
+    | cons e _ =>
+      exfalso
+      unfold G.E at e
+      rw [subgraph_out_ge g C i (by omega)] at e
+      simp at e
+
+/-- in a recurrent (closed) class the closed walks inside the class are all the closed walks
+    through its nodes -/
+theorem closed_class_walks (g : G) (C : List Nat) (hcl : ∀ u, u ∈ C → ∀ v, g.E u v → v ∈ C)
+    (u L : Nat) (hu : u ∈ C) : WalkIn g C u u L ↔ Walk g u u L :=
+  ⟨fun h => h.toWalk, fun h => h.toWalkIn hcl hu⟩
+
+/-- single-node class: `DiGraph.period` answers 1 (both the loop and the no-edge case) -/
+theorem class_period_singleton (g : G) (u : Nat) (Cs' : List (List Nat)) :
+    periodDG (subgraph g [u]) Cs' = .ok (1, none) := by
+  unfold periodDG; simp [subgraph]
+
+theorem forall₂_and_left {α β : Type} (P : α → Prop) (R : α → β → Prop) (l : List α) (ps : List β)
+    (h : List.Forall₂ R l ps) (hP : ∀ a, a ∈ l → P a) : List.Forall₂ (fun a b => P a ∧ R a b) l ps := by
+  induction h with
+  | nil => exact List.Forall₂.nil
+  | cons hab _ ih =>
+    exact List.Forall₂.cons ⟨hP _ (by simp), hab⟩ (ih (fun a ha => hP a (by simp [ha])))
+
+/-- **T1+T2 (`MarkovChain.period` of a reducible chain).** If the chain's classes are `Cs`
+    (more than one) and the model of `MarkovChain.period` answers `d`, then `d` is the lcm
+    (fold from 1) of one number `p` per recurrent class `C` — the classes no edge leaves — where
+    for a class with at least two states `p` is the gcd of the lengths of the closed walks through
+    the states of `C` (it divides them all, and every common divisor divides it), and `p = 1` for
+    a single-state class. -/
+theorem period_reducible_spec (g : G) (hwf : g.wf = true) (Cs : List (List Nat))
+    (hCs : sccClasses g = some Cs) (hred : isSC Cs = false) (d : Nat) (h : periodMC g Cs = .ok d) :
+    ∃ ps : List Nat,
+      List.Forall₂ (fun C p =>
+        (C ∈ Cs ∧ ∀ u, u ∈ C → ∀ v, g.E u v → v ∈ C) ∧
+        (2 ≤ C.length → (∀ u L, u ∈ C → Walk g u u L → p ∣ L) ∧
+            ∀ c, (∀ u L, u ∈ C → Walk g u u L → c ∣ L) → c ∣ p) ∧
+        (C.length = 1 → p = 1)) (sinkClasses g Cs) ps ∧
+      d = ps.foldl Nat.lcm 1 := by
+  rw [periodMC_reducible g Cs hred] at h
+  obtain ⟨ps, hfa, hd⟩ := periodRec_spec g _ 1 d h
+  refine ⟨ps, ?_, hd⟩
+  have hfa' := forall₂_and_left (fun C => C ∈ Cs ∧ ∀ u, u ∈ C → ∀ v, g.E u v → v ∈ C) _ _ _ hfa
+    (fun C hC => (sink_classes_spec g hwf Cs hCs C).1 hC)
+  refine hfa'.imp ?_
+  rintro C p ⟨⟨hC, hcl⟩, Cs', proj, hCs', hp⟩
+  refine ⟨⟨hC, hcl⟩, ?_, ?_⟩
+  · intro h2
+    obtain ⟨h1, h3⟩ := class_period_is_gcd g C h2 Cs' hCs' p proj hp
+    refine ⟨fun u L hu hw => h1 u L ((closed_class_walks g C hcl u L hu).2 hw), ?_⟩
+    intro c hc
+    apply h3
+    intro u L hw
+    exact hc u L hw.start_mem hw.toWalk
+  · intro h1
+    match C, h1 with
+    | [u], _ =>
+      rw [class_period_singleton g u Cs'] at hp
+      cases hp; rfl
+
+/-- non-vacuity: two recurrent classes of periods 2 and 3 and a transient node feeding both -/
+example : periodMC ⟨6, [[1], [0], [3], [4], [2], [0, 2]]⟩ [[0, 1], [2, 3, 4], [5]] = .ok 6 := by decide
+example : (⟨6, [[1], [0], [3], [4], [2], [0, 2]]⟩ : G).wf = true ∧
+    sccClasses ⟨6, [[1], [0], [3], [4], [2], [0, 2]]⟩ = some [[0, 1], [2, 3, 4], [5]] ∧
+    isSC [[0, 1], [2, 3, 4], [5]] = false ∧
+    sinkClasses ⟨6, [[1], [0], [3], [4], [2], [0, 2]]⟩ [[0, 1], [2, 3, 4], [5]] = [[0, 1], [2, 3, 4]] := by decide
+example : sccClasses (subgraph ⟨6, [[1], [0], [3], [4], [2], [0, 2]]⟩ [2, 3, 4]) = some [[0, 1, 2]] := by decide
+example : (match periodDG (subgraph ⟨6, [[1], [0], [3], [4], [2], [0, 2]]⟩ [2, 3, 4]) [[0, 1, 2]] with
+    | .ok (p, _) => p | _ => 0) = 3 := by decide
+
+/-! ## labelled variants (`annotate_nodes`) -/
+
+/-- the labelled lists are the index lists mapped through the labels, class by class -/
+theorem showClasses_labelled (lab : Nat → String) (Cs : List (List Nat)) :
+    showClasses lab Cs = showMat lab Cs := rfl
+
+/-! ## the oracle's bound on the walk length -/
+
+theorem walkV_nodes_lt (g : G) (hwf : g.wf = true) {u w : Nat} {vs : List Nat} (h : WalkV g u w vs) :
+    ∀ x, x ∈ vs → x < g.n := by
+  induction h with
+  | nil u => intro x hx; simp at hx
+  | cons e _ ih =>
+    intro x hx
+    rcases List.mem_cons.1 hx with rfl | hx'
+    · exact (E_lt g hwf e).1
+    · exact ih x hx'
+
+/-- **T2 (closed walks of length ≤ n decide the period).** A number dividing the length of every
+    closed walk with at most `n` edges divides the length of every closed walk: closed walks split
+    into simple cycles, and a simple cycle leaves pairwise different nodes `< n`.  (This is the fact
+    the harness' independent oracle relies on: it takes the gcd of the lengths `k ≤ n` with
+    `trace(A^k) > 0`.) -/
+theorem closed_walks_upto_n_suffice (g : G) (hwf : g.wf = true) (c : Nat)
+    (hc : ∀ u L, L ≤ g.n → Walk g u u L → c ∣ L) : ∀ u L, Walk g u u L → c ∣ L := by
+  intro u L hw
+  obtain ⟨vs, hvs, hl⟩ := hw.toWalkV
+  rw [← hl]
+  apply dvd_closed_of_dvd_cycles g c ?_ vs.length u vs rfl hvs
+  intro u' vs' hw' _ hnd
+  apply hc u' vs'.length ?_ hw'.toWalk
+  have hsub : vs' ⊆ List.range g.n := fun x hx => List.mem_range.2 (walkV_nodes_lt g hwf hw' x hx)
+  have := (List.subperm_of_subset hnd hsub).length_le
+  simpa using this
+
+
+/-! ## uniqueness of the cyclic classes, degenerate branches -/
+
+/-- **T2 (the cyclic classes are unique up to rotation).** Any assignment `c` of integers to the
+    nodes that advances by one (mod `d`) along every edge differs from the level table by the
+    constant `c 0` (mod `d`) on every node the BFS visited — so the list reported by
+    `cyclic_components_indices` is the only partition with the "class k → class k+1" property, up to
+    the rotation fixed by putting node 0 in class 0. -/
+theorem cyclic_classes_unique (g : G) (hwf : g.wf = true) (hn : 0 < g.n) (d : Int) (c : Nat → Int)
+    (hc : ∀ u v, g.E u v → d ∣ c u - c v + 1) (v : Nat) (hv : visited (bfs g) v = true) :
+    d ∣ (c v - c 0) - levelOf g.n (bfs g) v := by
+  obtain ⟨l, hl, hw⟩ := level_is_walk g hwf hn v hv
+  have h := walk_telescope g c d hc hw
+  rw [hl]
+  have : (l : Int) - (c v - c 0) = -((c v - c 0) - (l : Int)) := by ring
+  rw [this] at h
+  exact (Int.dvd_neg).1 h
+
+/-- single node: `DiGraph.period` is 1 by convention (no edge) or because of the loop -/
+theorem periodDG_single_node (g : G) (hn : g.n = 1) (Cs : List (List Nat)) :
+    periodDG g Cs = .ok (1, none) := by
+  unfold periodDG; simp [hn]
+
+/-- irreducible chain: `MarkovChain.period` is `DiGraph.period` -/
+theorem periodMC_irreducible (g : G) (Cs : List (List Nat)) (hsc : isSC Cs = true) (d : Nat)
+    (proj : Option Vis) (h : periodDG g Cs = .ok (d, proj)) : periodMC g Cs = .ok d := by
+  unfold periodMC; simp [hsc, h]
+
+/-- period 1 (`is_aperiodic`): the single cyclic class is the whole node set -/
+theorem cyclic_classes_aperiodic (g : G) (proj : Option Vis) :
+    cyclicClasses g 1 proj = [List.range g.n] := by
+  unfold cyclicClasses
+  cases proj <;> simp
+
+
+/-! ## sub-graphs, and independence of the storage order -/
+
+/-- **T1 (`DiGraph.subgraph`).** For a node list without repetition, position `i` has an edge to
+    position `j` in the sub-graph exactly when `nodes[i] → nodes[j]` is an edge of the graph. -/
+theorem subgraph_edge_iff (g : G) (nodes : List Nat) (hnd : nodes.Nodup) (i j : Nat) :
+    (subgraph g nodes).E i j ↔
+      ∃ hi : i < nodes.length, ∃ hj : j < nodes.length, g.E nodes[i] nodes[j] := by
+  rw [subgraph_E]
+  constructor
+  · rintro ⟨hi, v, hv, hvC, hidx⟩
+    have hj : j < nodes.length := by rw [← hidx]; exact List.idxOf_lt_length_of_mem hvC
+    refine ⟨hi, hj, ?_⟩
+    have : nodes[j] = v := by subst hidx; exact List.getElem_idxOf hj
+    rw [this]; exact hv
+  · rintro ⟨hi, hj, he⟩
+    exact ⟨hi, nodes[j], he, List.getElem_mem hj, List.Nodup.idxOf_getElem hnd j hj⟩
+
+
+
+/-- **T1 (skipping the tree edges changes nothing).** The gcd over the non-tree edges (what the
+    loop over `self.csgraph - bfs_tree_csr` computes, early exit included) equals the gcd of
+    `level[u] - level[v] + 1` over all stored edges. -/
+theorem periodBFS_eq_all_edges (g : G) (hwf : g.wf = true) (hn : 0 < g.n) :
+    periodBFS g (bfs g) = g.edges.foldl (fun d e => Nat.gcd d (edgeVal (levelOf g.n (bfs g)) e).natAbs) 0 := by
+  have hinv := bfs_inv g hwf hn
+  have hfold : ∀ (es : List (Nat × Nat)) (d : Nat),
+      es.foldl (fun d e => Nat.gcd d (edgeVal (levelOf g.n (bfs g)) e).natAbs) d
+        = es.foldl (gcdStep (levelOf g.n (bfs g))) d := by
+    intro es
+    induction es with
+    | nil => intro d; rfl
+    | cons e es ih => intro d; simp only [List.foldl_cons]; rw [gcdStep_eq]; exact ih _
+  rw [hfold]
+  apply Nat.dvd_antisymm
+  · apply dvd_foldl_gcdStep _ _ _ _ (Nat.dvd_zero _)
+    intro e he
+    obtain ⟨u, v⟩ := e
+    obtain ⟨hu, huv⟩ := (mem_edges g u v).1 he
+    rw [← Int.natCast_dvd]
+    exact periodBFS_dvd_edge g (bfs g) hinv u v hu huv
+  · unfold periodBFS
+    apply dvd_foldl_gcdStep _ _ _ _ (Nat.dvd_zero _)
+    intro e he
+    apply foldl_gcdStep_dvd_mem
+    unfold nonTree at he
+    exact (List.mem_filter.1 he).1
+
+theorem walk_congr (g g' : G) (hE : ∀ u v, g.E u v ↔ g'.E u v) {u w L : Nat} (h : Walk g u w L) :
+    Walk g' u w L := by
+  induction h with
+  | nil u => exact Walk.nil u
+  | cons e _ ih => exact Walk.cons ((hE _ _).1 e) ih
+
+/-- **T1 (the period does not depend on the storage order / on the BFS tree).** Two well-formed
+    graphs on the same `n ≥ 2` nodes with the same edge relation (e.g. the same CSR matrix with the
+    column indices of each row stored in a different order) get the same `DiGraph.period`. -/
+theorem period_order_independent (g g' : G) (hwf : g.wf = true) (hwf' : g'.wf = true)
+    (hn : g.n = g'.n) (hn2 : 2 ≤ g.n) (hE : ∀ u v, g.E u v ↔ g'.E u v)
+    (Cs Cs' : List (List Nat)) (hCs : sccClasses g = some Cs) (hCs' : sccClasses g' = some Cs')
+    (d d' : Nat) (proj proj' : Option Vis)
+    (h : periodDG g Cs = .ok (d, proj)) (h' : periodDG g' Cs' = .ok (d', proj')) : d = d' := by
+  obtain ⟨h1, h2⟩ := periodDG_is_gcd g hwf hn2 Cs hCs d proj h
+  obtain ⟨h1', h2'⟩ := periodDG_is_gcd g' hwf' (by omega) Cs' hCs' d' proj' h'
+  apply Nat.dvd_antisymm
+  · exact h2' d (fun u L hw => h1 u L (walk_congr g' g (fun a b => (hE a b).symm) hw))
+  · exact h2 d' (fun u L hw => h1' u L (walk_congr g g' hE hw))
+
+theorem reach_congr (g g' : G) (hE : ∀ u v, g.E u v ↔ g'.E u v) {u v : Nat} (h : Reach g u v) :
+    Reach g' u v := by
+  induction h with
+  | refl => exact Relation.ReflTransGen.refl
+  | tail _ e ih => exact Relation.ReflTransGen.tail ih ((hE _ _).1 e)
+
+/-- **T1 (the classes do not depend on the storage order).** -/
+theorem sccClasses_order_independent (g g' : G) (hwf : g.wf = true) (hwf' : g'.wf = true)
+    (hn : g.n = g'.n) (hE : ∀ u v, g.E u v ↔ g'.E u v) : sccClasses g = sccClasses g' := by
+  rw [sccClasses_total g, sccClasses_total g', ← hn]
+  have hcomm : ∀ u v, u < g.n → v < g.n → comm (reachTable g) u v = comm (reachTable g') u v := by
+    intro u v hu hv
+    rw [Bool.eq_iff_iff, comm_iff g hwf (reachOK_true g) u v hu hv,
+      comm_iff g' hwf' (reachOK_true g') u v (by omega) (by omega)]
+    constructor
+    · rintro ⟨a, b⟩; exact ⟨reach_congr g g' hE a, reach_congr g g' hE b⟩
+    · rintro ⟨a, b⟩
+      exact ⟨reach_congr g' g (fun x y => (hE x y).symm) a, reach_congr g' g (fun x y => (hE x y).symm) b⟩
+  have hscc : ∀ u, u < g.n → sccOf (reachTable g) g.n u = sccOf (reachTable g') g.n u := by
+    intro u hu
+    unfold sccOf
+    apply List.filter_congr
+    intro v hv
+    exact hcomm u v hu (List.mem_range.1 hv)
+  congr 1
+  unfold sccList
+  have hfil : (List.range g.n).filter (fun u => (sccOf (reachTable g) g.n u).head? == some u)
+      = (List.range g.n).filter (fun u => (sccOf (reachTable g') g.n u).head? == some u) := by
+    apply List.filter_congr
+    intro u hu
+    rw [hscc u (List.mem_range.1 hu)]
+  rw [hfil]
+  apply List.map_congr_left
+  intro u hu
+  exact hscc u (List.mem_range.1 (List.mem_filter.1 hu).1)
+
+
+/-- non-vacuity: the same graph with row 0 stored as `1,2` and as `2,1` -/
+example : (∀ u v, (⟨3, [[1, 2], [0], [0]]⟩ : G).E u v ↔ (⟨3, [[2, 1], [0], [0]]⟩ : G).E u v) := by
+  intro u v
+  unfold G.E G.out
+  match u with
+  | 0 => simp; omega
+  | 1 => simp
+  | 2 => simp
+  | (k + 3) => simp
+
+/-! ## explicitly stored zeros -/
+
+/-- **T1 (stored zeros are not edges).** After `elimZeros`, `v` is a column of a row exactly when
+    the row stores `v` at some position whose value flag is non-zero; the length is unchanged. -/
+theorem elimZeros_spec (stored nz : List (List Nat)) :
+    (elimZeros stored nz).length = min stored.length nz.length ∧
+    ∀ row flags, (row, flags) ∈ stored.zip nz → ∀ v,
+      v ∈ ((row.zip flags).filter fun p => p.2 != 0).map Prod.fst ↔ ∃ f, (v, f) ∈ row.zip flags ∧ f ≠ 0 := by
+  refine ⟨by simp [elimZeros], ?_⟩
+  intro row flags _ v
+  simp only [List.mem_map, List.mem_filter, bne_iff_ne, ne_eq, Prod.exists, exists_and_right, exists_eq_right]
+
+example : elimZeros [[1, 0], [1, 0]] [[1, 0], [1, 1]] = [[1], [1, 0]] := by decide
+
 
 end QE.C03
